@@ -31,6 +31,16 @@ CONFIGS = [
 ]
 
 
+# the same feature sets with debug assertions and overflow checks off (the shipped profile)
+CONFIGS_ND = [
+    ('default, debug assertions off', 'nodebug', ['--no-skip-fast']),
+    ('less-slow-kanji+big5+gb, debug assertions off', 'lessslow-nd', ['--no-skip-fast']),
+    ('fast-legacy-encode, debug assertions off', 'fast-nd', ['--no-skip-fast']),
+    ('simd-accel+std (nightly), debug assertions off', 'simd-nd', ['--no-skip-fast']),
+    ('default, debug assertions off, scalar UTF-8 validation forced', 'nodebug', ['--force-skip-fast']),
+]
+
+
 def say(*a):
     print(*a, flush=True)
 
@@ -68,7 +78,10 @@ def first_difference(base, other, seed, threads, total):
     return lo
 
 
-def run(tier, seed, threads, ev_path, scale, build):
+def run(tier, seed, threads, ev_path, scale, build, configs=None):
+    global CONFIGS
+    if configs is not None:
+        CONFIGS = configs
     t0 = time.time()
     n = int((300000 if tier == 'quick' else 2600000) * scale)
     os.makedirs(FOUND, exist_ok=True)
@@ -106,14 +119,19 @@ def run(tier, seed, threads, ev_path, scale, build):
         if not results:
             sys.stderr.write('HARNESS ERROR: every configuration is killed by the code under test (memory-safety checks abort the process: that is C06\'s to report - ./check C06); C17 cannot compare builds\n')
             return 2
-        # some builds die where the default build does not: that is a behavioural difference between builds
-        for name, note, tail in ([] if default_died else died):
+        # some builds die where another build with the same assertion settings completes the same runs:
+        # that is a behavioural difference between builds (the assertions-off build is left out of this
+        # comparison: it is expected to survive what a debug assertion or precondition check stops)
+        assert_on = [c[0] for c in CONFIGS if c[1] != 'nodebug']
+        survivors = [name for name, _ in results if name in assert_on]
+        pairs = [(survivors[0], d) for d in died if d[0] in assert_on] if survivors else []
+        for survivor, (name, note, tail) in pairs:
             idx = int(note[2]) if note else -1
             path = '%s/C17-build-killed-%d-%d.json' % (FOUND, seed, idx)
-            detail = 'configuration "%s" kills the process in run %d (%s) while "%s" completes the same runs' % (name, idx, tail, CONFIGS[0][0])
+            detail = 'configuration "%s" kills the process in run %d (%s) while "%s" completes the same runs' % (name, idx, tail, survivor)
             with open(path, 'w') as f:
                 json.dump({'format': 1, 'kind': 'build-killed', 'property': 'C17', 'oracle': 'build-killed-process', 'detail': detail, 'verif_seed': seed, 'run_index': idx,
-                           'configs': [CONFIGS[0][0], name], 'violation_line': 'VIOLATION property=C17 replay=%s' % path}, f, indent=1)
+                           'configs': [survivor, name], 'violation_line': 'VIOLATION property=C17 replay=%s' % path}, f, indent=1)
             say('violation: ' + detail)
             say('VIOLATION property=C17 replay=%s' % path)
             replays.append(path)
@@ -144,7 +162,11 @@ def run(tier, seed, threads, ev_path, scale, build):
         replays.append(path)
         rc = 1
     if died and results[0][0] != CONFIGS[0][0] and rc == 0:
-        sys.stderr.write('HARNESS ERROR: the default configuration is killed by the code under test (memory-safety checks abort the process: that is C06\'s to report - ./check C06) and the surviving configurations agree; C17 cannot say more\n')
+        if configs is None:
+            say('the default configuration is killed by the code under test (memory-safety checks abort the process: that is C06\'s to report - ./check C06); '
+                'comparing the same feature sets built without debug assertions instead')
+            return run(tier, seed, threads, ev_path, scale, build, configs=CONFIGS_ND)
+        sys.stderr.write('HARNESS ERROR: every configuration is killed by the code under test; C17 cannot compare builds (see ./check C06)\n')
         return 2
     # evidence
     cov = dict(base['coverage'])
@@ -172,7 +194,7 @@ def run(tier, seed, threads, ev_path, scale, build):
 def replay(path, build):
     j = json.load(open(path))
     names = j['configs']
-    cfg = {c[0]: c for c in CONFIGS}
+    cfg = {c[0]: c for c in CONFIGS + CONFIGS_ND}
     if j.get('kind') == 'build-killed':
         outcomes = []
         for n in names:
